@@ -73,6 +73,8 @@ def _norm_raw(p):
         return p
     p = tuple(_norm_raw(x) for x in p)
     S = lambda name: ('sym', name)
+    if len(p) == 2 and p[0] == S('unwrap') and isinstance(p[1], tuple) and len(p[1]) == 4 and p[1][0] == S('call') and p[1][1] in (S('Option::ok_or'), S('Option::ok_or_else')):
+        p = (p[0], p[1][2])
     if len(p) == 2 and p[0] == S('unwrap') and isinstance(p[1], tuple) and len(p[1]) == 3 and p[1][0] == S('call'):
         if p[1][1] == S('slice::last'):
             return (S('last'), p[1][2])
